@@ -38,9 +38,10 @@ func Harness_C06_RestoreFilter() {
 	opts := func(fs storage.FileSystem, own kv.DataOwnership) DBOptions {
 		return DBOptions{FileSystem: fs, MemTableSize: 20, TargetFileSize: 64, L0TableNumCompactionTrigger: 2, DataOwnership: own}
 	}
-	// old layout: M = 1 ([0,4)) or M = 2 ([0,2) and [2,4)); new layout: N = 1 or 2 likewise
+	// old layout: M = 1 ([0,4)) or M = 2 ([0,2) and [2,4)); new layout: N = 1, 2 (two splits) or 3
 	oldRanges := [][][2]int{{{0, 4}}, {{0, 2}, {2, 4}}}[verif.Choose("old-operators", 2)]
-	newRanges := [][][2]int{{{0, 4}}, {{0, 2}, {2, 4}}, {{0, 1}, {1, 4}}}[verif.Choose("new-operators", 3)]
+	// ... N = 3: the middle operator's range lies strictly inside the range of a table written by a single old operator
+	newRanges := [][][2]int{{{0, 4}}, {{0, 2}, {2, 4}}, {{0, 1}, {1, 4}}, {{0, 1}, {1, 3}, {3, 4}}}[verif.Choose("new-operators", 4)]
 	want := map[string][]byte{} // latest value per key; nil = deleted
 	var keysWritten [][]byte
 	var handles []recovery.CheckpointHandle
@@ -85,7 +86,7 @@ func Harness_C06_RestoreFilter() {
 			hs[0], hs[1] = hs[1], hs[0]
 		}
 		own := &verifOwner{nr[0], nr[1]}
-		db := Open(opts(root.WithWorkingDir([]string{"new1", "new2"}[ni]), own), hs)
+		db := Open(opts(root.WithWorkingDir([]string{"new1", "new2", "new3"}[ni]), own), hs)
 		for _, k := range keysWritten {
 			if !own.OwnsKey(k) {
 				continue
@@ -139,7 +140,7 @@ func Harness_C06_RestoreFilter() {
 		// the rescaled database takes the job's next checkpoint, and that checkpoint restores
 		h2, err := db.Checkpoint(6)()
 		verif.Assert(err == nil, "checkpoint-after-rescale-succeeds")
-		db2 := Open(opts(root.WithWorkingDir([]string{"new1b", "new2b"}[ni]), own), []recovery.CheckpointHandle{h2})
+		db2 := Open(opts(root.WithWorkingDir([]string{"new1b", "new2b", "new3b"}[ni]), own), []recovery.CheckpointHandle{h2})
 		for _, k := range keysWritten {
 			if !own.OwnsKey(k) {
 				continue
